@@ -273,7 +273,11 @@ def examine(case):
     for a in obj.args:
         if isinstance(a, ns.Field) and a.name.startswith("s") and a.name[1:].isdigit():
             sentinels.add(a.name)
-    if isinstance(obj, ns.fn.Extract):
+    # EXTRACT keeps its source in .field; when that is a nested wrapper (not a sentinel column) its name is a function
+    # name, not an argument sentinel, and is covered by the layout comparison above
+    extract_sentinel = isinstance(obj, ns.fn.Extract) and isinstance(obj.field, ns.Field) and \
+        obj.field.name.startswith("s") and obj.field.name[1:].isdigit()
+    if extract_sentinel:
         sentinels.add(obj.field.name)
     for snt in sorted(sentinels):
         cnt = sum(1 for t in toks if t.kind == "id" and t.val == snt)
@@ -281,7 +285,7 @@ def examine(case):
             F("arg-count", "argument %s occurs %d times: %s" % (snt, cnt, text))
     order = [t.val for t in toks if t.kind == "id" and t.val in sentinels]
     want = [a.name for a in obj.args if isinstance(a, ns.Field) and a.name in sentinels]
-    if isinstance(obj, ns.fn.Extract):
+    if extract_sentinel:
         want = want + [obj.field.name]
     if order != want:
         F("arg-order", "arguments appear as %s, given as %s: %s" % (order, want, text))
